@@ -964,6 +964,25 @@ def _dispatch_of(h):
     if h.name is None or not (isinstance(h.type, ast.Name) and h.type.id in ("BaseException", "Exception")) or not h.body:
         return None
     e = h.name
+    # the guard-clause form: `if not isinstance(e, T): raise` and then the statements for a T
+    k = 0
+    while k < len(h.body) and isinstance(h.body[k], ast.Assign):
+        k += 1
+    if k < len(h.body) - 1 and isinstance(h.body[k], ast.If) and not h.body[k].orelse and len(h.body[k].body) == 1 \
+            and isinstance(h.body[k].body[0], ast.Raise) and h.body[k].body[0].exc is None:
+        t0 = h.body[k].test
+        c0 = t0.operand if isinstance(t0, ast.UnaryOp) and isinstance(t0.op, ast.Not) else None
+        if isinstance(c0, ast.Call) and isinstance(c0.func, ast.Name) and c0.func.id == "isinstance" and len(c0.args) == 2 and not c0.keywords \
+                and isinstance(c0.args[0], ast.Name) and c0.args[0].id == e:
+            typ0 = c0.args[1]
+            names0 = typ0.elts if isinstance(typ0, ast.Tuple) else [typ0]
+            rest_body = h.body[k + 1:]
+            dead = all(isinstance(st, ast.Assign) and len(st.targets) == 1 and isinstance(st.targets[0], ast.Name)
+                       and not any(isinstance(x, ast.Name) and x.id == st.targets[0].id and isinstance(x.ctx, ast.Load) for y in rest_body for x in ast.walk(y))
+                       for st in h.body[:k])
+            if dead and all(isinstance(x, (ast.Name, ast.Attribute)) for x in names0) \
+                    and not any(isinstance(x, ast.Name) and x.id in _NOT_EXCEPTIONS for x in names0):
+                return [ast.copy_location(ast.ExceptHandler(type=typ0, name=e, body=rest_body), h)]
     prefix, last = h.body[:-1], h.body[-1]
     if not isinstance(last, ast.If):
         return None
